@@ -11,7 +11,7 @@ def families(tier):
 
 def families0(tier):
     q = tier == "quick"
-    return families1(tier) + D.amb_family(SEED + 48, 4 if q else 12, maxlen=3 if q else 4) + \
+    return families1(tier) + D.edge_family(SEED + 46, 12 if q else 36, maxlen=2 if q else 3) + D.amb_family(SEED + 48, 4 if q else 12, maxlen=3 if q else 4) + \
         D.count_family(SEED + 47, 6 if q else 24, maxlen=3, budget=3000 if q else 20000) + D.nonascii_flag_family(SEED + 49, 12 if q else 48, maxlen=3 if q else 4, budget=2500 if q else 20000)
 
 
